@@ -458,10 +458,15 @@ def check_stop_during_async_init(run, only=None):
             edzed.reset_circuit()
             circuit = edzed.get_circuit()
 
-            class Slow(edzed.AddonAsync, edzed.SBlock):
+            class Slow(edzed.AddonPersistence, edzed.AddonAsync, edzed.SBlock):
+                # (persistent: its state is to be saved at the stop - which cannot succeed while it is
+                # not initialised; that failure is logged, it is not the error of the simulation)
                 def __init__(self, *args, delay, **kwargs):
                     self._delay = delay
                     super().__init__(*args, **kwargs)
+
+                def _restore_state(self, state):
+                    self.set_output(state)
 
                 async def init_async(self):
                     await asyncio.sleep(self._delay)
@@ -473,8 +478,9 @@ def check_stop_during_async_init(run, only=None):
 
                 def _event_boom(self, **_d):
                     raise Tagged(7)
-            Slow('slow1', delay=0.3, init_timeout=2.0)
-            Slow('slow2', delay=0.5, init_timeout=2.0)
+            circuit.set_persistent_data({})
+            Slow('slow1', delay=0.3, init_timeout=2.0, persistent=True)
+            Slow('slow2', delay=0.5, init_timeout=2.0, persistent=True, sync_state=False)
             hp = HP('hp')
             async def forever():
                 await asyncio.sleep(1000)
